@@ -22,6 +22,15 @@ Mixed(s, up) == IF s = "" THEN "" ELSE (IF up THEN UpperOf(CharAt(s, 1)) ELSE Lo
 (* the key a name is stored and looked up under *)
 Key(n) == <<n[1]>> \o [i \in 1..(Len(n) - 1) |-> Lower(n[i + 1])]
 
+(* pairs of DISTINCT names that a careless key would merge: the same letters with the word boundary elsewhere, a common name and   *)
+(* the simple name spelled like it without the blank, the same word behind two articles                                           *)
+ClashPairs == << << <<"proper", "Tom", "Sawyer">>, <<"proper", "Toms", "Awyer">> >>,
+                 << <<"proper", "Doctor", "Feelgood">>, <<"proper", "Doctor", "Feel", "Good">> >>,
+                 << <<"common", "the", "heart">>, <<"simple", "theheart">> >>,
+                 << <<"common", "my", "heart">>, <<"common", "your", "heart">> >>,
+                 << <<"proper", "Johnny", "B", "Goode">>, <<"proper", "Johnny", "Bgoode">> >> >>
+ClashKeysDiffer == \A i \in 1..Len(ClashPairs) : Key(ClashPairs[i][1]) # Key(ClashPairs[i][2])
+
 SimpleWords == <<"foo", "bar", "baz", "qux", "~clair", "zed", "quux", "corge", "grault", "garply", "waldo", "fred">>
 Articles    == <<"the", "my", "your", "a", "an", "our">>
 CommonWords == <<"heart", "world", "night", "fire", "~t~", "dream">>
@@ -46,7 +55,7 @@ KeySeparatesDistinctNames == \A i, j \in 1..Len(Pool) : i # j => Key(Pool[i]) # 
 NoKeywordInNames == \A i \in 1..Len(Pool) : \A k \in 2..Len(Pool[i]) : (Pool[i][1] = "common" /\ k = 2) \/ ~IsKeyword(Lower(Pool[i][k]))
 ProperShape == \A i \in 1..Len(Pool) : Pool[i][1] = "proper" => Len(Pool[i]) >= 3 /\ \A k \in 2..Len(Pool[i]) : IsUppercase(CharAt(Pool[i][k], 1))
 
-NamesOK == KeyCaseInvariant /\ KeySeparatesDistinctNames /\ NoKeywordInNames /\ ProperShape
+NamesOK == KeyCaseInvariant /\ KeySeparatesDistinctNames /\ NoKeywordInNames /\ ProperShape /\ ClashKeysDiffer
 
 (* a naming scheme: abstract names (in the given order) -> concrete names of the pool, rotated by `off`; *)
 (* injective as long as there are no more abstract names than names in the pool                        *)
